@@ -26,6 +26,16 @@ CLAIMS = {
          "trace validation (functional + monitors)"),
  "C14": ("model_checking", "payload tokens in pending/current/previous transitions compared field by field with the operational specification for int / 32-byte over-aligned / 3-byte payload types", "4 C14",
          "resynchronising trace validation (functional oracle on payload projections)"),
+ "C08": ("model_checking", "invariant RoundTrip + action properties P_Load / P_SaveUntouched on the save/load pair model (every reachable configuration x every buffer saved in another one); on the code: save() compared bit for bit with Encode of the specification, load() of buffers saved in unrelated configurations judged against the decoded buffer (active, resumable, exit/enter sets)", "4 C08",
+         "TLC invariant/action property on pair model + trace validation (functional + monitors)"),
+ "C17": ("exploration", "spec/Structure.tla evaluated by TLC for every declaration term with <= 5 (quick) / 6 (thorough) states plus wide/deep/random families; the expected identifiers and counts become static_asserts compiled against the headers", "4 C17",
+         "TLC-evaluated reference (Structure.tla) -> generated static_asserts"),
+ "C18": ("model_checking", "ideal set / bit-sequence semantics (spec/Bits.tla); TLC computes the effect of every (state, operation) pair for small capacities and of sampled states for larger ones, every pair replayed on the real templates, also under ASan", "4 C18",
+         "TLC-generated test vectors per model transition, replayed on the implementation"),
+ "C19": ("model_checking", "ideal pool / bounded array (spec/Containers.tla); TLC enumerates every valid operation sequence to a depth bound, the real TaskListT trace is validated against it (returned slot must be free, count, contents), arrays replayed functionally", "4 C19",
+         "TLC-enumerated behaviours replayed on the implementation (trace validation of slot choice)"),
+ "C20": ("exploration", "spec/Prng.tla written from the published splitmix / xoshiro algorithms and anchored by published values; TLC walks the generators step by step and compares seeded state, outputs and jump() of all four bundled generators", "4 C20",
+         "TLC as executable reference (state machine per generator step)"),
  "C16": ("model_checking", "structure()[i].isActive = isActive(i) monitor and functional equality of activityHistory with the saturating-counter rule after every call", "4 C16",
          "trace validation (monitor + functional)"),
 }
